@@ -1333,7 +1333,9 @@ class ItemSpaceParent(ItemFactoryImpl, BaseNamespaceReferrer, HasFormula):
         return key in self.param_spaces
 
     def get_value_from_key(self, key):
-        return self.param_spaces[key].interface
+        # Create the ItemSpace if it does not exist (anymore), as cells do
+        return self.system.executor.eval_node(
+            key_to_node(self, key)).interface
 
 
 _base_space_impl_base = (
